@@ -4,7 +4,7 @@ namespace BSE
 variable {ν : Type}
 
 /-- `sh['function_type'].split('_')[0]` -/
-def baseType (ft : String) : String := (ft.splitOn "_").headD ""
+def baseType (ft : String) : String := String.ofList (ft.toList.takeWhile (· != '_'))
 
 /-- a shell whose momenta are all below 2 carries no spherical/cartesian tag -/
 def lowType (ams : List Nat) (ft : String) : String :=
